@@ -432,7 +432,41 @@ func init() {
 			}
 		}
 		run.Coverage["shutdown_scenarios"] = srs
+		// untrusted requests arriving while a trusted operation removes what their handler has just looked up
+		{
+			defs := c12Scenarios()
+			sp := pool.New(0)
+			execs, ok := runScenarios(run, defs, -1, sp)
+			run.Coverage["interleaving_scenarios"] = len(defs)
+			run.Coverage["interleaving_schedules"] = execs
+			if !ok {
+				run.NotExhaustive("an interleaving scenario could not be explored (harness error)")
+			}
+		}
 		run.Assumption("/api/v1/geo-stats is exercised only up to its parameter validation (the rest needs NASA/WattTime over the network); net/http's own shutdown bound is trusted; production-only WattTime paths cannot run offline")
 		return runJobCheck(run, "c12", jobs, "per clock configuration (now-offset in {0, 3599..3601, 4031..4033, 8064, 12000}; thorough: every value 3590..4040) with an authorized peer whose port is closed: every handler x {GET, POST, PUT} x query/body variants (absent, empty, malformed, boundary, valid, truncated JSON, wrong types, deeply nested), TCP sync requests of 0..4 bytes (+ garbage) for known/banned/unknown ids, the C01 datagram alphabet, one impact round and one rotation; one volume run (1722 accepted reports and 1060 authorizations, more than the bounded in-memory recent lists hold); after each request both mutexes must be free and GET /equipment must answer; plus Close() with 0/1/3 idle or half-sent TCP sync connections on the real sockets (violation only with a goroutine dump showing the handler blocked in its read after 4x serverShutdownTime); distinct = (handler, status) classes x configuration")
+	}
+}
+
+// c12Scenarios: every kind of untrusted request against the trusted operation (ban, rotation) that deletes or
+// moves the state its handler works on; all interleavings at lock acquisitions, crash/wedge oracle only.
+func c12Scenarios() []srvScenarioDef {
+	std := []string{"reg:G1:temp", "auth:1:kA:1000:G1", "auth:2:kB:1000:G1", "now:100", "rep:1:kA:99:400"}
+	late := []string{"reg:G1:temp", "auth:1:kA:1000:G1", "auth:2:kB:1000:G1", "now:2100", "rep:1:kA:2099:400"}
+	ban := []string{"auth:1:kX:1000:G1"}
+	mk := func(name string, init []string, threads ...[]string) srvScenarioDef {
+		return srvScenarioDef{Name: "X " + name, Init: init, Threads: threads, CrashOnly: true}
+	}
+	return []srvScenarioDef{
+		mk("report || ban of its device", std, []string{"rep:1:kA:100:500"}, ban),
+		mk("two reports for one slot || ban of their device", std, []string{"rep:1:kA:100:500", "rep:1:kA:100:600"}, ban),
+		mk("sync request || ban of its device", std, []string{"sync:1"}, ban),
+		mk("recent-reports request || ban of its device", std, []string{"recent:kA"}, ban),
+		mk("live statistics || ban", std, []string{"get:0"}, ban),
+		mk("report in the second week || rotation", late, []string{"rep:1:kA:2100:500"}, []string{"rot"}),
+		mk("sync request || rotation", late, []string{"sync:1"}, []string{"rot"}),
+		mk("statistics of both weeks || rotation", late, []string{"get:0", "get:2016"}, []string{"rot"}),
+		mk("recent-reports request || rotation", late, []string{"recent:kA"}, []string{"rot"}),
+		mk("report || ban || rotation", late, []string{"rep:1:kA:2100:500"}, ban, []string{"rot"}),
 	}
 }
